@@ -4,6 +4,7 @@ import os
 from sa import cfg as C
 from sa import ctx as X
 from sa import facts as F
+from sa import paths as P
 from . import common as K
 
 CONFIGS_QUICK = ["A"]
@@ -30,6 +31,7 @@ RULES = {
     "C09-R3": "every transient field read by the handler-facing API is stored on every path from the start of the unit iteration to the call-back invocation",
     "C09-R4": "every field of the scanner state is stored on every path of scpiParser_detectProgramMessageUnit",
     "C09-H4": "an input overrun (-363) empties the input buffer before returning",
+    "C09-H5": "wherever SCPI_Input empties the input buffer (position = 0) it also re-establishes every other field of the buffer that the library changes while parsing (no offset or count of the old content survives)",
     "C09-H3": "after a line is executed the consumed bytes are removed: memmove length, position decrement and the restart offset are the same amount",
 }
 
@@ -408,6 +410,60 @@ def rule_h4(ck, prog):
         ck.holds("C09-H4", st, K.loc(fn, pushes[0]), "position = 0 on every path through the -363 branch")
 
 
+def stale_buffer_fields(fn):
+    """[(path summary, field, the `position = 0` store)] for every path of fn that empties the buffer and leaves another
+    mutable field of it as it was; also returns the mutable fields and the number of emptying paths"""
+    POS = "context->buffer.position"
+    mutable = sorted({t.get("path") for n, t in C.stores(fn) if (t.get("path") or "").startswith("context->buffer.") and
+                      t.k == "MemberExpr"})
+    out, nempty = [], 0
+    for ps in P.summarize(fn):
+        stored = {}
+        for e in ps.events:
+            if e[0] == "store":
+                t = C.store_target(e[1])
+                if t is not None and t.get("path") in mutable:
+                    stored.setdefault(t["path"], []).append(e[1])
+        resets = [n for n in stored.get(POS, []) if n.get("op") == "=" and C.const_of(n.child(1)) == 0]
+        if not resets:
+            continue
+        nempty += 1
+        for fld in mutable:
+            if fld != POS and fld not in stored:
+                out.append((ps, fld, resets[0]))
+    return out, mutable, nempty
+
+
+def rule_h5(ck, prog):
+    fn = prog.fn("SCPI_Input")
+    if fn is None:
+        return
+    fix = F.extract_fixture(os.path.join(K.VERIF, "selftest", "fixtures", "buffer_reset.c"))
+    got, _m, _n = stale_buffer_fields(fix.functions["SCPI_Input"])
+    if {(fld) for _ps, fld, _s in got} != {"context->buffer.scanned"} or len(got) != 1:
+        ck.anchor_lost("C09-H5", "positive fixture selftest/fixtures/buffer_reset.c: %d reports" % len(got))
+        return
+    try:
+        stale, mutable, nempty = stale_buffer_fields(fn)
+    except P.TooManyPaths:
+        ck.undecided("C09-H5", K.site(fn, "paths", 0), K.loc(fn), "too many paths")
+        return
+    if not nempty or "context->buffer.position" not in mutable:
+        ck.anchor_lost("C09-H5", "SCPI_Input: no path stores `context->buffer.position = 0`")
+        return
+    seen = set()
+    for ps, fld, node in stale:
+        if (fld, node.id) in seen:
+            continue
+        seen.add((fld, node.id))
+        ck.violated("C09-H5", K.site(fn, "emptied-buffer-keeps(%s)" % fld.split(".")[-1], len(seen) - 1), K.loc(fn, node),
+                    "this path empties the input buffer but leaves `%s`, which the library changes while it parses, as the previous "
+                    "content left it: the next message is scanned with an offset that belongs to text no longer there" % fld)
+    if not stale:
+        ck.holds("C09-H5", K.site(fn, "emptied-buffer", 0), K.loc(fn),
+                 "%d emptying path(s); mutable fields of the buffer: %s" % (nempty, [m.split(".")[-1] for m in mutable]))
+
+
 def run(ck, fb, tier):
     spec = K.load_spec("context_fields.json")
     for cfg in fb.configs:
@@ -419,6 +475,7 @@ def run(ck, fb, tier):
         rule_r4(ck, prog)
         rule_h3(ck, prog)
         rule_h4(ck, prog)
+        rule_h5(ck, prog)
     ck.trust("spec/context_fields.json classification of scpi_t fields (confirmed by reading)")
     ck.assume("handlers reach library state only through the context pointer")
 
